@@ -28,6 +28,10 @@ CURR = "acnportal.acnsim.network.current.Current."
 TOU = "acnportal.signals.tariffs.tou_tariff.TimeOfUseTariff."
 SN = "acnportal.contrib.acnsim.network.stochastic_network.StochasticNetwork."
 
+SERIAL = [B + "Battery._to_dict", B + "Battery._from_dict", B + "Linear2StageBattery._to_dict", B + "Linear2StageBattery._from_dict",
+          E + "EV._to_dict", E + "EV._from_dict", EVT + "Event._to_dict", EVT + "Event._from_dict", EVT + "EVEvent._to_dict", EVT + "EVEvent._from_dict",
+          EQ + "_to_dict", EQ + "_from_dict"]
+
 TRUSTED_COMMON = [
     "A-REAL: Python float / numpy float64 arithmetic is treated as exact real arithmetic; int is unbounded",
     "A-PY: pyvc's encoding of the Python subset (evaluation order, short-circuit, truncating int(), attribute/property "
@@ -128,12 +132,17 @@ PLAN = {
              "is exception free (shape obligations of its numpy arithmetic); _increase_width keeps old content and pads with zeros; "
              "ChargingNetwork.update_pilots (loop invariant) leaves every station with exactly column i of the matrix as its pilot; in Simulator.run "
              "every precondition of these callees is discharged at its call site (shapes, column index inside the matrix). Because the postcondition "
-             "is keyed by station id it does not depend on the order of the mapping's entries. BOUNDED: the composition over a whole run (recorded = "
-             "applied = overlay of all submitted schedules) on seeded simulations.",
+             "is keyed by station id it does not depend on the order of the mapping's entries. PROVED per period of Simulator.run (clauses of the run "
+             "loop's step contract, i.e. for every period of every run): the pilot every station holds at the end of period t is column t of the pilot "
+             "matrix (applied = recorded); if the scheduler was invoked the matrix is the previous one overlaid with the submitted schedule - cell (station, "
+             "j) = the schedule's value for j in t..t+len-1 (0 if the station is omitted), the previous cell otherwise, 0 in new columns - and an empty "
+             "schedule changes no recorded pilot; if it was not invoked no recorded pilot changes and new columns are 0 (periods no schedule covers have "
+             "pilot 0); the matrix always covers the current period and never shrinks. BOUNDED: the closed form over a whole run (recorded = applied = "
+             "overlay of ALL submitted schedules, which follows from the per-period clauses by induction) on seeded simulations.",
         note="numpy operations (np.array of equal-length rows, zeros, slice / column assignment, tile, argmax, unravel_index, shape) are assumed "
              "contracts (A-LIB); network.is_feasible / constraint_current enter only through structural facts (shape; no constraints or no columns => "
              "feasible); set(len(x) ...) is characterised by 'at most one element iff all lengths are equal'",
-        explanation="proved: whole-matrix postcondition of _update_schedules, _increase_width, update_pilots, callee preconditions in run; bounded: overlay over whole runs (rt.simcheck C04.*)",
+        explanation="proved: whole-matrix postcondition of _update_schedules, _increase_width, update_pilots, callee preconditions in run, per-period overlay / applied = recorded clauses of the run loop; bounded: closed-form overlay over whole runs (rt.simcheck C04.*)",
         technique="contract-based deductive verification with a matrix theory for the numpy operations used (pyvc/z3) + run-time contract monitor (bounded) for the whole-run overlay",
         trusted=["numpy axioms used: array(list of equal-length rows), zeros, [:, lo:hi] = M, [:, j] = v, [i, j], shape, tile(v,(n,1)).T, abs, -, argmax range, unravel_index"],
     ),
@@ -173,17 +182,24 @@ PLAN = {
     ),
     "C09": dict(
         level="other",
-        functions=[SIM + "run"],
+        functions=[SIM + "run"] + SERIAL,
+        lemmas=["C09.dump_then_load_restores_every_state_field"],
         bounded=[dict(module="rt.drivers", fn="resume_monitor", label="interrupt at every period, resume directly and through JSON")],
         text="PROVED (every period as interruption point, all simulations; no bound): exceptional postcondition of Simulator.run - in the state a "
              "scheduler exception leaves behind, run()'s own precondition holds again, the loop guard is true (also when the interrupted period "
              "was the period of the last event), the schedule of that period is still owed and no event of that period is pending, so a second "
              "run() pops nothing and reaches the same scheduler call in the same state; counters advance only after the pilots were applied "
-             "(step contract). BOUNDED: equality of the completed trajectory with the uninterrupted run, and the whole JSON part (loaded object "
+             "(step contract). PROVED for the JSON half, per class (Battery, Linear2StageBattery, EV, Event, EVEvent incl. Plugin events, EventQueue): "
+             "_to_dict writes every state field of the object under its own name (a referenced battery / EV / queued event by the registry id of THAT "
+             "object; the queue's heap array position by position) and nothing else; _from_dict rebuilds an object whose state fields are the "
+             "dictionary's entries and whose references are the objects registered under the dumped ids; lemma: dump-then-load restores every state "
+             "field and re-attaches the same registered object (so an EV shared by its station, the history and a pending event is one object again, "
+             "given the registry hands out one id per object). BOUNDED: equality of the completed trajectory with the uninterrupted run, and the whole JSON part (loaded object "
              "carries the complete state, shared EV objects stay shared, resumed run equal) - the serialisers are reflective code outside the "
              "verifier's reach - are monitored with every period of every seeded scenario as interruption point.",
-        note="the scheduler is assumed to be a function of what it observes; JSON / registry code (base.py, _to_dict/_from_dict) is only monitored",
-        explanation="proved: resumability of the interrupted state (exceptional postcondition of run); bounded: trajectory equality and JSON round trip (rt.drivers.resume_monitor)",
+        note="the scheduler is assumed to be a function of what it observes; the registry plumbing of base.py (_to_registry / _build_from_id / to_json / from_json: "
+             "reflective) is an assumed contract (A-REGISTRY); Simulator / ChargingNetwork / EVSE / UnplugEvent (try / except fallbacks) serialisers are only monitored",
+        explanation="proved: resumability of the interrupted state (exceptional postcondition of run), per-class dump / load contracts and their round-trip lemma; bounded: trajectory equality and the whole-simulator JSON round trip (rt.drivers.resume_monitor)",
         technique="contract-based deductive verification (exceptional postcondition re-establishing the precondition, pyvc/z3) + run-time monitor (bounded, exhaustive over interruption points of seeded scenarios)",
     ),
     "C11": dict(
@@ -191,7 +207,8 @@ PLAN = {
         functions=[EVT + x for x in ("Event.__init__", "Event.__lt__", "EVEvent.__init__", "PluginEvent.__init__", "UnplugEvent.__init__",
                                      "RecomputeEvent.__init__")]
                   + [EQ + x for x in ("__init__", "__len__", "empty", "add_event", "add_events", "get_event", "get_current_events",
-                                      "get_last_timestamp")],
+                                      "get_last_timestamp", "_to_dict", "_from_dict")]
+                  + [EVT + "Event._to_dict", EVT + "Event._from_dict", EVT + "EVEvent._to_dict", EVT + "EVEvent._from_dict"],
         bounded=[dict(module="rt.fnmon", fn="queue_monitor", label="queue operation sequences incl. JSON round trip against the pending-set model")],
         text="PROVED (all queue contents, all interleavings by induction over calls, no bound): every EventQueue method is verified "
              "from its source against a postcondition over the whole pending multiset (bag): add_event/add_events add exactly the given "
@@ -199,8 +216,11 @@ PLAN = {
              "the pending events with timestamp <= t, sorted by time then precedence, and leaves exactly the later ones (loop invariant + "
              "termination measure), len/empty/get_last_timestamp are functions of the pending set; the representation invariant (heap "
              "order, stored timestamp = event timestamp) is preserved by every method; the event constructors pin precedence 0/10/20. "
-             "BOUNDED: the JSON round trip (reflective serialiser) - restored queue has the same heap array and behaves identically - "
-             "is monitored over seeded operation sequences.",
+             "PROVED for the JSON half: EventQueue._to_dict writes the heap array position by position as (stored timestamp, registry id of the "
+             "event) and _from_dict rebuilds it position by position with the objects registered under those ids (loop invariants); Event / EVEvent "
+             "dump and load every state field (timestamp, type, precedence, the EV by registry id) - so the restored heap array is the dumped one "
+             "and every method's contract applies to it unchanged. BOUNDED: the registry plumbing itself (reflective) - a restored queue behaves "
+             "identically - is monitored over seeded operation sequences.",
         note="heapq.heappush/heappop are assumed contracts (heap invariant, bag update, minimum at index 0); Python's tuple order on "
              "(timestamp, event) is modelled as time, then identity, then Event.__lt__ (itself proved); events are not mutated while queued",
         explanation="proved: all EventQueue methods and event constructors (pyvc); bounded: JSON round trip and whole-sequence behaviour (rt.fnmon.queue_monitor)",
